@@ -36,7 +36,7 @@ inductive IntExpr
   | arraySize (target elem : String) (align : Nat) (padLast : Bool)   -- `ArrayHelpers.size(self.<fix target>, …)`
   | unknown                                                  -- `<unknown>` (byte size of something that is not an array)
   | memberSize (target : String) (ty : Option String)        -- `self.<fix target>.size`
-  | computed (member target : String) (ty : Option String) (delta : Int)   -- `self.<fix member>_computed`
+  | computed (member target : String) (ty : Option String) (isBytes : Bool) (delta : Int)   -- `self.<fix member>_computed`
   deriving Repr, Inhabited
 
 inductive StoreExpr
@@ -63,8 +63,8 @@ inductive CondValue
 
 inductive CondExpr
   | truthy (rendered : String)                               -- `if self.<rendered>:`
-  | cmp (value : CondValue) (op : CondOp) (rendered : String) (computed : Option (String × Option String × Int))
-      -- `if <value> <op> self.<rendered>[_computed]:`; for `_computed`: target, its type, delta
+  | cmp (value : CondValue) (op : CondOp) (rendered : String) (computed : Option (String × Option String × Bool × Int))
+      -- `if <value> <op> self.<rendered>[_computed]:`; for `_computed`: target, its type / whether a byte array, delta
   deriving Repr, Inhabited
 
 structure SerStmt where
@@ -91,7 +91,7 @@ def IntExpr.render : IntExpr → String
   | .arraySize t _ align padLast => arraySizeCall (printerName t) align padLast
   | .unknown => "<unknown>"
   | .memberSize t _ => "self." ++ printerName t ++ ".size"
-  | .computed m _ _ _ => "self." ++ printerName m ++ "_computed"
+  | .computed m _ _ _ _ => "self." ++ printerName m ++ "_computed"
 
 def StoreExpr.render : StoreExpr → String
   | .toBytes e w s comment =>
@@ -143,6 +143,12 @@ def refTypeOf (d : StructDef) (n : String) : Option String :=
   | some ⟨_, .ref ty _, _⟩ => some ty
   | _ => none
 
+/-- is member `n` a byte array? (its `_computed` size is `len(...)`, not `.size`) -/
+def isBytesMember (d : StructDef) (n : String) : Bool :=
+  match d.fields.find? (·.name == n) with
+  | some ⟨_, .barray _, _⟩ => true
+  | _ => false
+
 def condValueAst (S : Schema) (d : StructDef) (c : Cond) : CondValue :=
   match d.fields.find? (fun g => g.name == c.field) with
   | none => .unknown
@@ -165,7 +171,7 @@ def condAst (S : Schema) (d : StructDef) (f : Field) : Option CondExpr :=
     else
       some (.cmp (condValueAst S d c) c.op (printerName c.field)
         (match d.fields.find? (fun g => g.name == c.field) with
-          | some ⟨_, .sizeRef _ _ target delta, _⟩ => some (target, refTypeOf d target, delta)
+          | some ⟨_, .sizeRef _ _ target delta, _⟩ => some (target, refTypeOf d target, isBytesMember d target, delta)
           | _ => none))
 
 def storeAst (d : StructDef) (f : Field) : StoreExpr :=
@@ -179,15 +185,12 @@ def storeAst (d : StructDef) (f : Field) : StoreExpr :=
       | some ⟨_, .array elem _ align padLast _, _⟩ => .arraySize target elem align padLast
       | _ => .unknown) w s (some f.name)
   | .sizeOf w s target => .toBytes (.memberSize target (refTypeOf d target)) w s (some f.name)
-  | .sizeRef w s target delta => .toBytes (.computed f.name target (refTypeOf d target) delta) w s none
+  | .sizeRef w s target delta => .toBytes (.computed f.name target (refTypeOf d target) (isBytesMember d target) delta) w s none
   | .ref ty _ => .serialize f.name ty
   | .barray _ => .raw f.name
-  | .array elem mode align padLast sortKey =>
+  | .array elem _ align padLast sortKey =>
     if align != 0 then .writeAligned f.name elem align padLast
-    else match mode, sortKey with
-      | .fill, _ => .writeArray f.name elem none
-      | _, some k => .writeArray f.name elem (some k)
-      | _, none => .writeArray f.name elem none
+    else .writeArray f.name elem sortKey
 
 def sizeAst (f : Field) : SizeExpr :=
   match f.kind with
@@ -232,11 +235,11 @@ structure PyCtx where
   vs : List (String × Val)
   selfSize : R Nat
 
+/-- `<member>.size` (of `None`: whatever the recursive `size` answers -- an error for `recN`) -/
 def memberSizeOf (c : PyCtx) (v : Val) (ty : Option String) : R Nat :=
-  match v, ty with
-  | .none, _ => .error .shape           -- `None.size`
-  | v, some ty => c.calls.size ty v
-  | _, none => .error .shape
+  match ty with
+  | some ty => c.calls.size ty v
+  | none => .error .shape
 
 def IntExpr.eval (c : PyCtx) : IntExpr → R Int
   | .attr m =>
@@ -260,10 +263,14 @@ def IntExpr.eval (c : PyCtx) : IntExpr → R Int
     match attrOf c.vs (printerName t) with
     | some v => do let n ← memberSizeOf c v ty; .ok (n : Int)
     | none => .error .missing
-  | .computed _ target ty delta =>
-    -- `return 0 if not self.<target> else self.<target>.size + <delta>`
+  | .computed _ target ty isBytes delta =>
+    -- `return 0 if not self.<target> else self.<target>.size + <delta>` (`len(self.<target>)` for a byte array)
     match attrOf c.vs target with
-    | some v => if !SymbolVerif.Codec.truthy v then .ok 0 else do let n ← memberSizeOf c v ty; .ok ((n : Int) + delta)
+    | some v =>
+      if !SymbolVerif.Codec.truthy v then .ok 0
+      else if isBytes then
+        (match v with | .bytes b => .ok ((b.length : Int) + delta) | _ => .error .unsupported)
+      else do let n ← memberSizeOf c v ty; .ok ((n : Int) + delta)
     | none => .error .missing
 
 def StoreExpr.eval (c : PyCtx) : StoreExpr → R Bytes
@@ -321,7 +328,7 @@ def CondExpr.eval (c : PyCtx) : CondExpr → R Bool
   | .truthy m => .ok (SymbolVerif.Codec.truthy ((attrOf c.vs m).getD .none))
   | .cmp value op m computed => do
     let a ← (match computed with
-      | some (target, ty, delta) => (IntExpr.computed m target ty delta).eval c
+      | some (target, ty, isBytes, delta) => (IntExpr.computed m target ty isBytes delta).eval c
       | none =>
         match attrOf c.vs m with
         | some (.int a) => .ok a
@@ -368,11 +375,9 @@ semantics of the interpreter):
 * the name used *unmangled* by the generator -- the target in the `…_computed` property -- is not `type` /
   `property` (the generated property is called `type_`, so `self.type` raises `AttributeError`; conditions refer to
   the tested member and to the discriminant by their generated names since the repair of `generate_condition`);
-* a byte-size member describes an array (else `<unknown>` is emitted), a size-of / size-ref member a member
-  of named type (else `.size` of a byte string);
-* a condition on an enum-typed discriminant names a member of the enum, and enum member names are unique;
-* a keyed array is not a fill array (for a fill array the generator emits `write_array` *without* the
-  accessor, i.e. no order check, where the layout interpreter checks the order). -/
+* a byte-size member describes an array (else `<unknown>` is emitted), a size-of member a member of named type
+  (else `.size` of a byte string), a size-ref member a member of named type or a byte array;
+* a condition on an enum-typed discriminant names a member of the enum, and enum member names are unique. -/
 
 def rawNameOk (n : String) : Bool := n != "type" && n != "property"
 
@@ -407,8 +412,7 @@ def wfgKind (d : StructDef) (f : Field) : Bool :=
       | some ⟨_, .array .., _⟩ => true
       | _ => false)
   | .sizeOf _ _ t => mangledFree t && (refTypeOf d t).isSome
-  | .sizeRef _ _ t _ => mangledFree t && (refTypeOf d t).isSome && rawNameOk t
-  | .array _ mode align _ key => align != 0 || key.isNone || (match mode with | .fill => false | _ => true)
+  | .sizeRef _ _ t _ => mangledFree t && ((refTypeOf d t).isSome || isBytesMember d t) && rawNameOk t
   | _ => true
 
 def wfgStruct (S : Schema) (d : StructDef) : Bool :=
@@ -417,18 +421,11 @@ def wfgStruct (S : Schema) (d : StructDef) : Bool :=
 def WFG (S : Schema) : Bool :=
   S.all (fun nt => match nt.2 with | .struct d => wfgStruct S d | _ => true)
 
-/-- value-side conditions under which the layout interpreter and Python agree: arrays are within the
-    interpreter's modelled domain, and no `.size` / `.serialize()` is taken of `None`
-    (`serialize` raises on both sides in that case; `size` does not in the interpreter for scalar types) -/
-def pyObjOk (rec : Rec) (d : StructDef) (vs : List (String × Val)) : Bool :=
+/-- value-side condition: the arrays of the object are within the interpreter's modelled domain (`maxCount`) -/
+def pyObjOk (d : StructDef) (vs : List (String × Val)) : Bool :=
   d.fields.all fun f =>
     match f.kind with
     | .array .. => (match Val.get vs f.name with | some (.arr l) => decide (l.length ≤ maxCount) | _ => true)
-    | .ref .. =>
-      (match condOnObject rec d.fields vs f with
-        | .ok true => (match Val.get vs f.name with | some .none => false | _ => true)
-        | _ => true)
-    | .sizeOf _ _ t => (match Val.get vs t with | some .none => false | _ => true)
     | _ => true
 
 end SymbolVerif.Codec
